@@ -96,6 +96,7 @@ type Node struct {
 
 type Graph struct {
 	Dag    bool      `json:"dag,omitempty"`
+	Chain  bool      `json:"chain,omitempty"` // built with compose.NewChain (every stage is a single node, no branch)
 	WF     bool      `json:"wf,omitempty"` // built as a compose.Workflow (all-predecessor, eager scheduling: tasks are collected one by one)
 	Stages [][]*Node `json:"stages"`
 	Loop   bool      `json:"loop,omitempty"` // last stage (a single node) branches back to the first stage, never to END
@@ -205,17 +206,48 @@ func pathOf(prefix []string, key string) []string {
 	return append(p, key)
 }
 
-// boom panics with the payload "boom:<id>" from a call stack 0-44 frames deep (user code panics
-// anywhere; the depth decides how long the recovering side spends in debug.Stack).
+// boom panics with payload id from a call stack 0-44 frames deep (user code panics anywhere; the
+// depth decides how long the recovering side spends in debug.Stack).  The panic VALUE is, by
+// id%3, the string "boom:<id>", an error value with that text, or a runtime error (index <id> of
+// an empty slice) — what nil maps / bad indices in user code raise.
 func boom(id int) {
+	var empty []int
 	var down func(k int)
 	down = func(k int) {
 		if k <= 0 {
+			switch id % 3 {
+			case 1:
+				panic(fmt.Errorf("boom:%d", id))
+			case 2:
+				_ = empty[id]
+			}
 			panic("boom:" + strconv.Itoa(id))
 		}
 		down(k - 1)
 	}
 	down((id * 7) % 45)
+}
+
+// payloadOf reads the id back from a recovered panic value (-2: not one of the harness's).
+func payloadOf(pi any) int {
+	var s string
+	switch v := pi.(type) {
+	case string:
+		s = v
+	case error:
+		s = v.Error()
+	default:
+		return -2
+	}
+	if m := reBoom.FindStringSubmatch(s); m != nil {
+		n, _ := strconv.Atoi(m[1])
+		return n
+	}
+	if m := reIndex.FindStringSubmatch(s); m != nil {
+		n, _ := strconv.Atoi(m[1])
+		return n
+	}
+	return -2
 }
 
 // callTime is what every lambda flavour does when it is called.
@@ -264,7 +296,8 @@ func lambdaOf(e *env, n *Node, path []string) *compose.Lambda {
 			case "convpanic":
 				src := schema.StreamReaderFromArray([]M{out})
 				return schema.StreamReaderWithConvert(src, func(m M) (M, error) {
-					panic("boom:" + strconv.Itoa(n.ID))
+					boom(n.ID)
+					return nil, nil
 				}), nil
 			}
 			return schema.StreamReaderFromArray([]M{out}), nil
@@ -335,7 +368,8 @@ func (s *sTool) StreamableRun(ctx context.Context, args string, opts ...tool.Opt
 	t.e.rec(t.path, "tool-convpanic")
 	src := schema.StreamReaderFromArray([]string{"r"})
 	return schema.StreamReaderWithConvert(src, func(s string) (string, error) {
-		panic("boom:" + strconv.Itoa(t.spec.ID))
+		boom(t.spec.ID)
+		return "", nil
 	}), nil
 }
 
@@ -414,7 +448,44 @@ func build(e *env, g *Graph, prefix []string) (compilable, error) {
 	if g.WF {
 		return buildWF(e, g, prefix)
 	}
+	if g.Chain {
+		return buildChain(e, g, prefix)
+	}
 	return buildGraph(e, g, prefix)
+}
+
+// buildChain: a graph whose stages are single nodes, built through the Chain front end.
+func buildChain(e *env, g *Graph, prefix []string) (compilable, error) {
+	if g.Loop || g.EndBr || len(g.Stages) == 0 {
+		return nil, errors.New("chain cases have stages and no branch")
+	}
+	ch := compose.NewChain[M, M]()
+	for _, st := range g.Stages {
+		if len(st) != 1 {
+			return nil, errors.New("chain cases have single-node stages")
+		}
+		n := st[0]
+		path := pathOf(prefix, n.Key)
+		switch n.Kind {
+		case "lam":
+			ch.AppendLambda(lambdaOf(e, n, path), compose.WithNodeKey(n.Key))
+		case "sub":
+			sg, err := build(e, n.Sub, path)
+			if err != nil {
+				return nil, err
+			}
+			ch.AppendGraph(sg, compose.WithNodeKey(n.Key), compose.WithGraphCompileOptions(compileOpts(n.Sub)...))
+		case "tools":
+			sg, err := toolsGraph(e, n, path)
+			if err != nil {
+				return nil, err
+			}
+			ch.AppendGraph(sg, compose.WithNodeKey(n.Key))
+		default:
+			return nil, fmt.Errorf("bad node kind %q", n.Kind)
+		}
+	}
+	return ch, nil
 }
 
 // buildWF: the same layered shape as a Workflow. A node with one predecessor takes its whole
@@ -534,7 +605,7 @@ func buildGraph(e *env, g *Graph, prefix []string) (compilable, error) {
 				return "", g.BrErr.mk()
 			case "panic":
 				e.rec(brPath, "br-panic")
-				panic("boom:" + strconv.Itoa(g.BrID))
+				boom(g.BrID)
 			}
 			return target, nil
 		}, ends)
@@ -583,6 +654,7 @@ var isTargets = []error{sentinels[0], sentinels[1], compose.ErrExceedMaxSteps, c
 
 var rePath = regexp.MustCompile(`node path: \[([^\]]*)\]`)
 var reBoom = regexp.MustCompile(`^boom:(\d+)$`)
+var reIndex = regexp.MustCompile(`^runtime error: index out of range \[(\d+)\] with length 0$`)
 
 func project(err error) *Proj {
 	p := &Proj{Panic: -1}
@@ -605,12 +677,7 @@ func project(err error) *Proj {
 		p.As[1] = c1.code
 	}
 	if pi, ok := compose.VerifC13PanicInfo(err); ok {
-		p.Panic = -2 // a panic value the harness did not throw
-		if s, ok := pi.(string); ok {
-			if m := reBoom.FindStringSubmatch(s); m != nil {
-				p.Panic, _ = strconv.Atoi(m[1])
-			}
-		}
+		p.Panic = payloadOf(pi) // -2: a panic value the harness did not throw
 	}
 	_, p.Interrupt = compose.ExtractInterruptInfo(err)
 	msg := err.Error()
